@@ -68,6 +68,9 @@ THEOREMS = [
     "Mesa.Cont.C10_legacy_neighbors_metric",
     "Mesa.Cont.C10_exp_radius_metric",
     "Mesa.Cont.C10_exp_k_nearest_metric",
+    "Mesa.Cont.C10_exp_neighbors_in_radius_metric",
+    "Mesa.Cont.C10_legacy_heading_metric",
+    "Mesa.Cont.C10_exp_difference_metric",
     "Mesa.Cont.C18_cont_place_reject_unchanged",
     "Mesa.Cont.C18_cont_move_reject_unchanged",
     "Mesa.Cont.C18_cont_remove_reject_unchanged",
